@@ -46,9 +46,11 @@ VARIABLES pre,      \* pre[n]: alh of the txs node n holds (in memory) under ids
           created,  \* history variable: [id, alh, prev] of the txs primaries created, and [by, id, alh]: who created them
           rep,      \* rep[r]: the state replica r read last (what its next request carries)
           acked,    \* acked[p][r]: highest id of a state of r that reached p and was a prefix of p's history
+          pend,     \* pend[p][r]: the state of r's latest request that reached p (it may become a prefix of p's history while
+                    \* ExportTxByID runs: p commits / precommits concurrently; being a prefix is monotone in p's progress)
           allowBy,  \* allowBy[r]: the node whose allowance is in force on replica r (None: none)
           srcs      \* history variable: nodes r has followed
-vars == <<pre, dur, com, role, follows, syncOn, need, everDur, created, rep, acked, allowBy, srcs>>
+vars == <<pre, dur, com, role, follows, syncOn, need, everDur, created, rep, acked, pend, allowBy, srcs>>
 
 Min(a, b) == IF a < b THEN a ELSE b
 Max(a, b) == IF a > b THEN a ELSE b
@@ -65,7 +67,7 @@ Init(cf) ==
   /\ role = [n \in Nodes |-> cf[n].role] /\ follows = [n \in Nodes |-> cf[n].follows]
   /\ syncOn = [n \in Nodes |-> cf[n].sync] /\ need = [n \in Nodes |-> cf[n].need]
   /\ everDur = [n \in Nodes |-> {}] /\ created = {}
-  /\ rep = [n \in Nodes |-> NoSt] /\ acked = [p \in Nodes |-> [r \in Nodes |-> 0]]
+  /\ rep = [n \in Nodes |-> NoSt] /\ acked = [p \in Nodes |-> [r \in Nodes |-> 0]] /\ pend = [p \in Nodes |-> [r \in Nodes |-> NoSt]]
   /\ allowBy = [n \in Nodes |-> None] /\ srcs = [n \in Nodes |-> IF cf[n].follows = None THEN {} ELSE {cf[n].follows}]
 
 -----------------------------------------------------------------------------
@@ -76,7 +78,9 @@ CommitPartOk(p, st) == st.cid = 0 \/ (st.cid <= com[p] /\ pre[p][st.cid] = st.ca
 PrecommitPartOk(p, st) == st.pid = 0 \/ (st.pid <= Len(pre[p]) /\ pre[p][st.pid] = st.palh)
 StatePrefix(p, st) == CommitPartOk(p, st) /\ PrecommitPartOk(p, st)
 \* replicas whose durable possession of p's tx `id` reached p as a report
-Ackers(p, id) == {r \in Nodes \ {p} : acked[p][r] >= id}
+Ackers(p, id) == {r \in Nodes \ {p} : acked[p][r] >= id \/ (pend[p][r].pid >= id /\ StatePrefix(p, pend[p][r]))}
+\* the acknowledgements p has received, the pending requests folded in
+Folded(p) == [r \in Nodes |-> IF StatePrefix(p, pend[p][r]) THEN Max(acked[p][r], pend[p][r].pid) ELSE acked[p][r]]
 DurableAckers(p, id) == {r \in Ackers(p, id) : pre[p][id] \in everDur[r]}
 \* the nodes whose committed history authorises a commit on replica r: the node it follows at that moment, and the node
 \* whose allowance is in force (asynchronous replication: the nodes it fetched committed transactions from)
@@ -91,14 +95,14 @@ PrecommitG(n, id, alh, prev) == role[n] = "replica" => TxRec(id, alh, prev) \in 
 PrecommitE(n, id, alh, prev) ==
   /\ pre' = [pre EXCEPT ![n] = Append(@, alh)]
   /\ created' = IF role[n] = "primary" THEN created \cup {TxRec(id, alh, prev), Own(n, id, alh)} ELSE created
-  /\ UNCHANGED <<dur, com, role, follows, syncOn, need, everDur, rep, acked, allowBy, srcs>>
+  /\ UNCHANGED <<dur, com, role, follows, syncOn, need, everDur, rep, acked, pend, allowBy, srcs>>
 Precommit(n, id, alh, prev) == PrecommitS(n, id, alh, prev) /\ PrecommitG(n, id, alh, prev) /\ PrecommitE(n, id, alh, prev)
 
 DurableS(n, upto) == upto = Len(pre[n])
 DurableE(n, upto) ==
   /\ dur' = [dur EXCEPT ![n] = upto]
   /\ everDur' = [everDur EXCEPT ![n] = @ \cup Range(SubSeq(pre[n], 1, upto))]
-  /\ UNCHANGED <<pre, com, role, follows, syncOn, need, created, rep, acked, allowBy, srcs>>
+  /\ UNCHANGED <<pre, com, role, follows, syncOn, need, created, rep, acked, pend, allowBy, srcs>>
 Durable(n, upto) == DurableS(n, upto) /\ DurableE(n, upto)
 
 CommittedS(n, upto, alh) == upto > com[n] /\ upto <= Len(pre[n]) /\ pre[n][upto] = alh
@@ -112,14 +116,14 @@ RCommittedG(r, upto) == IF syncOn[r] THEN \E p \in Auth(r) : PrefixOfCommitted(r
 CommittedG(n, upto, alh) == IF role[n] = "primary" THEN PCommittedG(n, upto) ELSE RCommittedG(n, upto)
 CommittedE(n, upto, alh) ==
   /\ com' = [com EXCEPT ![n] = upto]
-  /\ UNCHANGED <<pre, dur, role, follows, syncOn, need, everDur, created, rep, acked, allowBy, srcs>>
+  /\ UNCHANGED <<pre, dur, role, follows, syncOn, need, everDur, created, rep, acked, pend, allowBy, srcs>>
 Committed(n, upto, alh) == CommittedS(n, upto, alh) /\ CommittedG(n, upto, alh) /\ CommittedE(n, upto, alh)
 
 DiscardS(n, since) == since > com[n] /\ since <= Len(pre[n])
 DiscardE(n, since) ==
   /\ pre' = [pre EXCEPT ![n] = SubSeq(@, 1, since - 1)]
   /\ dur' = [dur EXCEPT ![n] = Min(@, since - 1)]
-  /\ UNCHANGED <<com, role, follows, syncOn, need, everDur, created, rep, acked, allowBy, srcs>>
+  /\ UNCHANGED <<com, role, follows, syncOn, need, everDur, created, rep, acked, pend, allowBy, srcs>>
 Discard(n, since) == DiscardS(n, since) /\ DiscardE(n, since)
 
 \* clean restart: what the tx log holds is reloaded (precommitted txs that were discarded may come back); allowances are gone
@@ -130,7 +134,7 @@ ReopenedE(n, c, alhs) ==
   /\ everDur' = [everDur EXCEPT ![n] = @ \cup Range(alhs)]
   /\ allowBy' = [allowBy EXCEPT ![n] = None]
   /\ rep' = [rep EXCEPT ![n] = NoSt]
-  /\ UNCHANGED <<com, role, follows, syncOn, need, created, acked, srcs>>
+  /\ UNCHANGED <<com, role, follows, syncOn, need, created, acked, pend, srcs>>
 Reopened(n, c, alhs) == ReopenedS(n, c, alhs) /\ ReopenedE(n, c, alhs)
 
 -----------------------------------------------------------------------------
@@ -142,19 +146,24 @@ ReportDurableG(r, st) == st.pid <= dur[r]
 ReportG(r, st) == ReportCommitG(r, st) /\ ReportHeldG(r, st) /\ ReportDurableG(r, st)
 ReportE(r, st) ==
   /\ rep' = [rep EXCEPT ![r] = st]
-  /\ UNCHANGED <<pre, dur, com, role, follows, syncOn, need, everDur, created, acked, allowBy, srcs>>
+  /\ UNCHANGED <<pre, dur, com, role, follows, syncOn, need, everDur, created, acked, pend, allowBy, srcs>>
 Report(r, st) == ReportG(r, st) /\ ReportE(r, st)
 
 \* the request carries the state the replicator read
 ArriveG(p, r, has, st) == has => st = rep[r]
-ArriveE(p, r, has, st) ==
+\* track: the validation of the state is not atomic with its arrival (real executions), the raw state is remembered
+ArriveE(p, r, has, st, track) ==
   /\ acked' = IF has /\ StatePrefix(p, st) THEN [acked EXCEPT ![p][r] = Max(@, st.pid)] ELSE acked
+  /\ pend' = IF track THEN [pend EXCEPT ![p][r] = IF has THEN st ELSE NoSt] ELSE pend
   /\ UNCHANGED <<pre, dur, com, role, follows, syncOn, need, everDur, created, rep, allowBy, srcs>>
-Arrive(p, r, has, st) == ArriveG(p, r, has, st) /\ ArriveE(p, r, has, st)
+Arrive(p, r, has, st) == ArriveG(p, r, has, st) /\ ArriveE(p, r, has, st, TRUE)
 
 \* the primary allows itself to commit up to `upto` only when enough replicas acknowledged every tx up to it
 PAllowG(p, upto) == (syncOn[p] /\ need[p] > 0) => \A id \in (com[p] + 1)..Min(upto, Len(pre[p])) : Cardinality(Ackers(p, id)) >= need[p]
-PAllow(p, upto) == PAllowG(p, upto) /\ UNCHANGED vars
+PAllowE(p) ==
+  /\ acked' = [acked EXCEPT ![p] = Folded(p)]
+  /\ UNCHANGED <<pre, dur, com, role, follows, syncOn, need, everDur, created, rep, pend, allowBy, srcs>>
+PAllow(p, upto) == PAllowG(p, upto) /\ PAllowE(p)
 
 \* the primary answers with a transaction / its commit state only to a replica whose state is a prefix of its own history
 ExportTxG(p, n, txalh, allowPre) == n >= 1 /\ n <= Len(pre[p]) /\ pre[p][n] = txalh /\ (~allowPre => n <= com[p])
@@ -168,7 +177,7 @@ AnswerDivergedG(p, r, st) == ~StatePrefix(p, st)
 RAllowG(r, upto, alh) == follows[r] # None /\ upto >= 1 /\ HeldBy(r, upto, alh) /\ upto <= com[follows[r]] /\ pre[follows[r]][upto] = alh
 RAllowE(r, upto, alh) ==
   /\ allowBy' = [allowBy EXCEPT ![r] = follows[r]]
-  /\ UNCHANGED <<pre, dur, com, role, follows, syncOn, need, everDur, created, rep, acked, srcs>>
+  /\ UNCHANGED <<pre, dur, com, role, follows, syncOn, need, everDur, created, rep, acked, pend, srcs>>
 RAllow(r, upto, alh) == RAllowG(r, upto, alh) /\ RAllowE(r, upto, alh)
 
 -----------------------------------------------------------------------------
@@ -179,15 +188,15 @@ Switch(r, p, sy) ==
   /\ syncOn' = [syncOn EXCEPT ![r] = sy] /\ need' = [need EXCEPT ![r] = 0]
   /\ allowBy' = [allowBy EXCEPT ![r] = None] /\ rep' = [rep EXCEPT ![r] = NoSt]
   /\ srcs' = [srcs EXCEPT ![r] = @ \cup {p}]
-  /\ UNCHANGED <<pre, dur, com, everDur, created, acked>>
+  /\ UNCHANGED <<pre, dur, com, everDur, created, acked, pend>>
 \* the address of the primary reaches another node: only the followed node changes
 Connected(r, p) ==
   /\ follows' = [follows EXCEPT ![r] = p] /\ srcs' = [srcs EXCEPT ![r] = @ \cup {p}]
-  /\ UNCHANGED <<pre, dur, com, role, syncOn, need, everDur, created, rep, acked, allowBy>>
+  /\ UNCHANGED <<pre, dur, com, role, syncOn, need, everDur, created, rep, acked, pend, allowBy>>
 Promote(n, sy, k) ==
   /\ role' = [role EXCEPT ![n] = "primary"] /\ follows' = [follows EXCEPT ![n] = None]
   /\ syncOn' = [syncOn EXCEPT ![n] = sy] /\ need' = [need EXCEPT ![n] = k]
-  /\ acked' = [acked EXCEPT ![n] = [r \in Nodes |-> 0]]
+  /\ acked' = [acked EXCEPT ![n] = [r \in Nodes |-> 0]] /\ pend' = [pend EXCEPT ![n] = [r \in Nodes |-> NoSt]]
   /\ allowBy' = [allowBy EXCEPT ![n] = None] /\ rep' = [rep EXCEPT ![n] = NoSt]
   /\ UNCHANGED <<pre, dur, com, everDur, created, srcs>>
 
